@@ -93,6 +93,9 @@ def drive(rng, length=14):
   depth = 0
   unlocks = 0
   try:
+    bad = {k: v for k, v in world.reg_status.items() if v != 'ok'}
+    if bad:       # every descriptor the driver builds is valid: gin must accept it
+      return dict(reg=reg, events=[], reg_failed=bad)
     for _ in range(length):
       r = rng.random()
       if r < 0.3:
